@@ -47,16 +47,19 @@ type c13Plan struct {
 }
 
 type c13Inj struct {
-	mu      sync.Mutex
-	fault   c13Fault
-	dir     string
-	files   []*os.File
-	byG     map[int64]*os.File
-	counts  map[string]int
-	fired   bool
-	firedAt string
-	ctl     *c12Ctl
-	restore map[int64]func() // transient descriptor swaps to undo, by goroutine (0: caller side)
+	mu        sync.Mutex
+	fault     c13Fault
+	dir       string
+	files     []*os.File
+	byG       map[int64]*os.File
+	counts    map[string]int
+	fired     bool
+	firedAt   string
+	ctl       *c12Ctl
+	restore   map[int64]func() // transient descriptor swaps to undo, by goroutine (0: caller side)
+	cyc       int              // use cycle of the sorter (two-cycle runs)
+	cycWrites int              // run-file writes in this cycle
+	firedIn   map[int]bool     // cycles in which the per-cycle fault took effect
 }
 
 // swapFd makes the next fsync/lseek on f fail without touching the file: f's descriptor number is pointed at the write
@@ -106,7 +109,12 @@ type c13File struct {
 func (w *c13File) Write(p []byte) (int, error) {
 	w.inj.mu.Lock()
 	w.inj.counts["write"]++
+	w.inj.cycWrites++
 	hit := w.inj.fault.Kind == "write" && w.inj.counts["write"] == w.inj.fault.N
+	if w.inj.fault.Kind == "write-each-cycle" && w.inj.cycWrites == w.inj.fault.N { // the N-th write of every use cycle fails
+		hit = true
+		w.inj.firedIn[w.inj.cyc] = true
+	}
 	if hit {
 		w.inj.fired, w.inj.firedAt = true, fmt.Sprintf("write #%d (%d bytes)", w.inj.fault.N, len(p))
 	}
@@ -212,7 +220,7 @@ func c13Exec(r *obs.Run, p c13Plan, vals []int) (out c13Outcome) {
 	}
 	m.AutoClear = p.AutoClear
 	ents, _ := os.ReadDir(scratch)
-	inj := &c13Inj{fault: p.Fault, counts: map[string]int{}, restore: map[int64]func(){}}
+	inj := &c13Inj{fault: p.Fault, counts: map[string]int{}, restore: map[int64]func(){}, firedIn: map[int]bool{}}
 	if len(ents) == 1 {
 		inj.dir = filepath.Join(scratch, ents[0].Name())
 	}
@@ -282,6 +290,104 @@ func c13Exec(r *obs.Run, p c13Plan, vals []int) (out c13Outcome) {
 	return
 }
 
+// c13TwoCycles: a fault that persists across uses of one sorter - the n-th run-file write fails in the first cycle (which
+// must report it), the sorter is cleared and used again, and the n-th write of the second cycle fails too. The second
+// failure must surface from some call of the second cycle just like the first.
+func c13TwoCycles(r *obs.Run, wl c12Workload, conc bool, n int) {
+	vals := c13Vals(wl)
+	scratch := c11Scratch(r)
+	defer os.RemoveAll(scratch)
+	r.Crumb(fmt.Sprintf("two cycles %+v concurrent=%v write#%d of each cycle fails", wl, conc, n))
+	m, err := morass.New(c11Int(0), "c13", scratch, wl.Chunk, conc)
+	if err != nil {
+		r.Inconclusive("harness: morass.New: " + err.Error())
+		return
+	}
+	inj := &c13Inj{fault: c13Fault{"write-each-cycle", n}, counts: map[string]int{}, restore: map[int64]func(){}, firedIn: map[int]bool{}}
+	morass.VerifSetStep(inj.step)
+	morass.VerifSetWrap(inj.wrap)
+	defer morass.VerifSetStep(nil)
+	defer morass.VerifSetWrap(nil)
+	defer m.CleanUp()
+	type cyc struct {
+		Errors []string `json:"errors"`
+		Got    []int    `json:"pulled"`
+		Fired  bool     `json:"fault_reached"`
+	}
+	var cycles []cyc
+	w := map[string]interface{}{"workload": wl, "concurrent": conc, "failing_write_of_each_cycle": n, "values": vals}
+	defer func() {
+		if e := recover(); e != nil {
+			w["cycles"] = cycles
+			r.Violate("panic", fmt.Sprintf("two-cycle run (write #%d of each cycle failing): panic: %v", n, e), w)
+		}
+	}()
+	for c := 0; c < 2; c++ {
+		inj.mu.Lock()
+		inj.cyc, inj.cycWrites = c, 0
+		inj.mu.Unlock()
+		var cy cyc
+		note := func(where string, err error) {
+			if err != nil && err != io.EOF {
+				cy.Errors = append(cy.Errors, where+": "+err.Error())
+			}
+		}
+		for k, v := range vals {
+			if err := m.Push(c11Int(v)); err != nil {
+				note(fmt.Sprintf("Push %d", k), err)
+				break
+			}
+		}
+		ferr := m.Finalise()
+		note("Finalise", ferr)
+		if ferr == nil {
+			for len(cy.Got) <= len(vals)+2 {
+				var v c11Int
+				err := m.Pull(&v)
+				if err == io.EOF {
+					break
+				}
+				if err != nil {
+					note(fmt.Sprintf("Pull %d", len(cy.Got)), err)
+					break
+				}
+				cy.Got = append(cy.Got, int(v))
+			}
+		}
+		inj.mu.Lock()
+		cy.Fired = inj.firedIn[c]
+		inj.mu.Unlock()
+		cycles = append(cycles, cy)
+		w["cycles"] = cycles
+		want := append([]int(nil), vals...)
+		sort.Ints(want)
+		correct := len(cy.Got) == len(want)
+		for k := 0; correct && k < len(want); k++ {
+			correct = cy.Got[k] == want[k]
+		}
+		r.Count("two_cycle_fault_cycles", 1)
+		if cy.Fired {
+			r.Count("two_cycle_faults_reached", 1)
+		}
+		if len(cy.Errors) == 0 && (cy.Fired || !correct) {
+			class := "failure-unreported"
+			if !correct {
+				class = "failure-hidden"
+			}
+			r.Violate(class, fmt.Sprintf("write #%d of use cycle %d failing (workload %+v, concurrent=%v, the same write failed and was reported in the cycle before: %v): no Push/Finalise/Pull of this cycle reported an error, %d of %d values delivered",
+				n, c+1, wl, conc, c > 0, len(cy.Got), len(vals)), w)
+			return
+		}
+		if c == 0 {
+			if err := m.Clear(); err != nil {
+				r.Count("two_cycle_clear_errors", 1)
+				return
+			}
+		}
+	}
+	r.Note(fmt.Sprintf("twocycle/%+v/%v/%d", wl, conc, n), true)
+}
+
 var c13Workloads = []c12Workload{{3, 2, 1}, {4, 3, 0}, {2, 3, 1}, {5, 1, 4}, {3, 4, 2}, {7, 2, 3}, {2, 5, 0}, {6, 3, 1}}
 
 // c13Census returns the number of operations of each kind for a workload.
@@ -309,6 +415,7 @@ func c13Vals(w c12Workload) []int {
 }
 
 type c13Item struct {
+	two    int // > 0: two-cycle run with this write ordinal failing in each cycle (plan.W, plan.Concurrent used)
 	plan   c13Plan
 	strace string // non-empty: strace injection spec
 	resid  bool   // residue history
@@ -332,6 +439,9 @@ func c13Items(r *obs.Run) []c13Item {
 						}
 					}
 				}
+			}
+			for _, n := range []int{1, 2, w.Chunk + 1} {
+				items = append(items, c13Item{two: n, plan: c13Plan{W: w, Concurrent: conc}})
 			}
 			// writes and reads: ordinals are enumerated up to a generous bound; the census decides which exist
 			items = append(items, c13Item{plan: c13Plan{W: w, Concurrent: conc, Fault: c13Fault{"write", -1}}})
@@ -379,7 +489,7 @@ func init() {
 		MinDistinct: func(t string) int { return 500 },
 		Floors: func(string) map[string]int64 {
 			return map[string]int64{"fault_runs": 800, "faults_reached": 700, "faults_create": 80, "faults_write": 200, "faults_sync": 80, "faults_seek": 80, "faults_syncx": 80, "faults_seekx": 80, "faults_read": 160, "errors_reported": 700, "faults_with_autoclear": 300, "faults_read_in_long_runs": 30,
-				"strace_injections_hit": 3, "residue_histories": 500, "residue_autoclean_drains": 60, "residue_autoclear_drains": 100}
+				"strace_injections_hit": 3, "two_cycle_faults_reached": 60, "residue_histories": 500, "residue_autoclean_drains": 60, "residue_autoclear_drains": 100}
 		},
 		Assumptions: []string{"exactly one operation is made to fail per run; later failures caused by it (a closed or removed file) are consequences, not additional injections",
 			"if an error is reported nothing further is demanded of the delivered values", "strace counts the N-th matching syscall per thread; the (INJECTED) lines in its log are the evidence of what failed"},
@@ -391,6 +501,8 @@ func c13Case(r *obs.Run, i int) {
 	items := c13Items(r)
 	it := items[i*r.NBatch+r.Batch]
 	switch {
+	case it.two > 0:
+		c13TwoCycles(r, it.plan.W, it.plan.Concurrent, it.two)
 	case it.resid:
 		c13Residue(r)
 	case it.strace != "":
